@@ -394,6 +394,30 @@ Theorem canonical_encoding_asis_refuted :
 Proof. vm_compute. repeat split. discriminate. Qed.
 Print Assumptions canonical_encoding_asis_refuted.
 
+(* ---------- byte encoding of the G1 points of a proof (A', Abar, d, both commitments) ---------- *)
+(* the flag and range checks of the compressed encoding (compression bit set; infinity bit only as 0xc0 00..00; x below
+   the field modulus) are in the model; two byte strings they accept and that give the same (infinity | x, sign of y) are
+   equal - so a changed 48-byte chunk fails these checks or names another (x, sign).  That (x, sign) determines the
+   point, and that x is the abscissa of a subgroup point, is the curve library's part (assumption). *)
+Theorem g1_encoding_injective : forall a b, bytes_ok a -> bytes_ok b ->
+  g1_flags_decode a <> GErr -> g1_flags_decode a = g1_flags_decode b -> a = b.
+Proof. exact g1_flags_injective_lemma. Qed.
+Print Assumptions g1_encoding_injective.
+
+Theorem altered_point_chunk : forall a b, bytes_ok a -> bytes_ok b -> g1_flags_decode a <> GErr -> a <> b ->
+  g1_flags_decode b <> g1_flags_decode a.
+Proof. intros a b Ha Hb Hne Hab E. apply Hab. apply g1_flags_injective_lemma; auto. Qed.
+Print Assumptions altered_point_chunk.
+
+Example g1_flags_nonvacuous :
+  g1_flags_decode (192 :: repeat 0 47)%N = GInf /\
+  g1_flags_decode (160 :: repeat 0 46 ++ [1])%N = GPoint 1 true /\
+  g1_flags_decode (32 :: repeat 0 46 ++ [1])%N = GErr /\            (* compression flag cleared *)
+  g1_flags_decode (224 :: repeat 0 46 ++ [1])%N = GErr /\           (* infinity flag on a finite point *)
+  g1_flags_decode (128 :: repeat 0 46 ++ [1])%N = GPoint 1 false /\ (* sign flipped: another point *)
+  g1_flags_decode (159 :: repeat 255 47)%N = GErr.                    (* x not below the field modulus *)
+Proof. vm_compute. repeat split. Qed.
+
 (* ---------- the credential level (bbsblssignatureproof2020): statements, indexes, exact statement count ---------- *)
 (* the holder rewrites every blank node label of a signed statement into a urn:bnid: IRI, the verifier rewrites back:
    the signed statement returns, for every statement that does not itself name such an IRI - and ONLY for those *)
